@@ -131,7 +131,10 @@ def corpus_layer(ctx):
     t = impl.HTable('t', [('i', int), ('s', str), ('t', str)], [(1, 'a', 'x'), (2, 'b', 'y'), (3, 'c', 'x'), (4, 'a', 'z'), (5, 'd', 'y')])
     u = impl.HTable('u', [('i', int), ('s', str)], [(1, 'a'), (9, 'b'), (5, 'c'), (7, 'd'), (3, 'e')])
     for text in CORPUS:
-        SqlCase([t, u], text, name='corpus').check(ctx)
+        case = SqlCase([t, u], text, name='corpus')
+        case.check(ctx)
+        if not case.run_impl().startswith('OK'):
+            raise RuntimeError('corpus statement is not accepted: %s' % text)
         ctx.count('corpus')
 
 
